@@ -1038,6 +1038,7 @@ coap_oscore_decrypt_pdu(coap_session_t *session,
      * Requires in COSE object as appropriate
      *   partial_iv (as received)
      */
+    rcp_ctx->rollback_valid = 0;
     /*
      * With Appendix B.1.2 the window is set up by the request that carries
      * the Echo value (see below), otherwise by the first request.
